@@ -99,9 +99,9 @@ def validate_sharded(run, module, cfg, trace_path, max_shards=12, per_shard=4000
 
 
 # ---------------------------------------------------------------- blocking wrappers (C02 C10-C13 C19)
-def handle_rejects(run, prop, rejects, tp, classes, stack, all_rejects):
-    rows = None
+def handle_rejects(run, prop, rejects, tp, classes, stack, all_rejects, cap=25):
     seen = set()
+    wanted = []
     for rj in rejects:
         key = (rj["trace"], rj["class"], rj.get("p"))
         if key in seen:
@@ -109,16 +109,28 @@ def handle_rejects(run, prop, rejects, tp, classes, stack, all_rejects):
         seen.add(key)
         rj["_stack"] = stack
         all_rejects.append(rj)
-        if rj["class"] in classes:
-            if rows is None:
-                rows = vlib.read_ndjson(tp)
-            tr = [x for x in rows if x["trace"] == rj["trace"] and (x["ev"] == "Reset" or x.get("i", 0) <= rj["i"])]
-            cfg = tr[0]["cfg"] if tr else {}
-            sig = {"class": rj["class"], "kind": cfg.get("kind"), "known": rj.get("known", "")}
-            run.report("%s limiter%s: recorded execution rejected by the contract (%s: %s, process %s) after step %s" % (
-                cfg.get("kind"), (" built by " + cfg["ctor"]) if cfg.get("ctor") else "", rj["class"], rj["why"], rj.get("p"), json.dumps(rj["step"])),
-                {"config": cfg, "schedule": [x.get("step") for x in tr[1:]], "trace": tr, "reject": rj,
-                 "rerun": "VERIF_SEED=%d bin/check %s --tier %s" % (run.seed, prop, run.tier)}, sig)
+        if rj["class"] in classes and len(wanted) < cap:
+            wanted.append(rj)
+    if not wanted:
+        return
+    need = {rj["trace"] for rj in wanted}
+    by_trace = {}
+    with open(tp) as f:
+        for line in f:
+            x = json.loads(line)
+            if x["trace"] in need:
+                by_trace.setdefault(x["trace"], []).append(x)
+    for rj in wanted:
+        tr = [x for x in by_trace.get(rj["trace"], []) if x["ev"] == "Reset" or x.get("i", 0) <= rj["i"]]
+        cfg = tr[0]["cfg"] if tr else {}
+        sig = {"class": rj["class"], "kind": cfg.get("kind"), "known": rj.get("known", "")}
+        run.report("%s limiter%s: recorded execution rejected by the contract (%s: %s, process %s) after step %s" % (
+            cfg.get("kind"), (" built by " + cfg["ctor"]) if cfg.get("ctor") else "", rj["class"], rj["why"], rj.get("p"), json.dumps(rj["step"])),
+            {"config": cfg, "schedule": [x.get("step") for x in tr[1:]], "trace": tr, "reject": rj,
+             "rerun": "VERIF_SEED=%d bin/check %s --tier %s" % (run.seed, prop, run.tier)}, sig)
+    n_more = sum(1 for rj in all_rejects if rj["class"] in classes and rj.get("_stack") == stack) - len(wanted)
+    if n_more > 0:
+        run.extra["further_rejections_not_reported_individually"] = run.extra.get("further_rejections_not_reported_individually", 0) + n_more
 
 
 def wrapper_random(run, prop, classes, n, all_rejects):
@@ -234,7 +246,8 @@ def c10(run):
 
 def c11(run):
     th = run.tier == "thorough"
-    names = ["q3", "q3l"] + (["q4", "q4l", "q3n", "q4t"] if th else [])
+    # q4 / q4l: four callers, so that an arrival can take the freed token before unblock (the refused hand-off path)
+    names = ["q3l", "q4"] + (["q3", "q4l", "q3n", "q4t"] if th else [])
     wrapper_pipeline(run, "C11", names, [], {"order"}, random_n=4000 if th else 800)
 
 
@@ -440,10 +453,45 @@ def partition_random(run, prop, classify, only_limits=False):
     ]
 
 
+def partition_stress(run, prop, n):
+    """Free-running goroutines on real partitioned strategies; TLC searches each history for a linearisation (PartitionLin)."""
+    out, _ = run.go("^TestPartitionStress$", env={"VERIF_N": n}, timeout=900)
+    tp = os.path.join(out, "partlin_trace.ndjson")
+    rows = vlib.read_ndjson(tp)
+    ops = sum(1 for x in rows if x["t"] == "b")
+    refused = sum(1 for x in rows if x["t"] == "e" and not x["ok"])
+    run.extra["partition_stress"] = {"histories": n, "calls": ops, "refusals": refused}
+    if refused == 0:
+        raise Machinery("partition stress histories are vacuous (no refusal)")
+    remaining = rows
+    for attempt in range(6):
+        path = os.path.join(out, "pl_%d.ndjson" % attempt)
+        vlib.write_ndjson(path, remaining)
+        r = run.tlc("PartitionLin", "PartitionLin_trace.cfg", workers=1, env={"VERIF_TRACE": path}, label="val:PartitionLin[%d lines]" % len(remaining),
+                    jvm="-Xmx6g", timeout=1200)
+        if r.error or r.violation:
+            raise Machinery("PartitionLin failed to run: %s %s\n%s" % (r.error, r.violation, r.raw[-3000:]))
+        marks = [int(x) for x in r.prints.get("MARK", [])]
+        mark = max(marks) if marks else 0
+        run.events += mark
+        if mark == len(remaining):
+            run.traces += len([x for x in remaining if x["t"] == "reset"])
+            return
+        bad = remaining[min(mark, len(remaining) - 1)]["trace"]
+        hist = [x for x in remaining if x["trace"] == bad]
+        kind = hist[0]["cfg"]["kind"]
+        run.report("%s strategy: recorded concurrent history %d has no linearisation under the Partition contract (TLC consumed %d of its %d events)" % (
+            kind, bad, sum(1 for x in remaining[:mark] if x["trace"] == bad), len(hist)),
+            {"history": hist, "rerun": "VERIF_SEED=%d bin/check %s --tier %s" % (run.seed, prop, run.tier)}, {"kind": kind, "what": "linearisability"})
+        remaining = [x for x in remaining if x["trace"] != bad]
+    raise Machinery("more than 6 non-linearisable partition histories; giving up")
+
+
 def c03(run):
     def classify(kind, m):
         return {"kind": kind, "op": (m.get("op") or {}).get("op") if isinstance(m.get("op"), dict) else None}
     partition_pipeline(run, "C03", classify)
+    partition_stress(run, "C03", 1000 if run.tier == "thorough" else 120)
 
 
 # ------------------------------------------------------------------ limit algorithms (C04 C06 C07 C08 C15 C16)
